@@ -4,9 +4,9 @@ from ..implenv import np, pyPRISM
 from ..driver import f2h, fl, h2f
 
 RULE = ("random Domains (length 1-40 / 1-300, from dr or dk) x tabulated omega given as array (with/without k) or as one/two-column text file "
-        "(incl. single-row and single-value files) x k-grid relation {equal, shifted, rescaled, truncated, extended, one point perturbed by a factor "
+        "(incl. single-row and single-value files) x k-grid relation {equal, shifted, rescaled, truncated, extended, a table starting at k = 0, one point perturbed by a factor "
         "straddling the allclose threshold (0.3..3 x (1e-8+1e-5|k|))}; outcome (accepted / rejected) and, when accepted, the returned values are compared "
-        "BITWISE with the Lean model; predicate: verbatim-or-exception, decided by an independent allclose transcription; caller-array mutation probe; "
+        "BITWISE with the Lean model; predicate: verbatim-or-exception, decided by an independent allclose transcription; caller-array mutation probe; single-precision tables (PRISM.omega stays the double-precision table times the site density); "
         "wrong-length one-column files pushed through createPRISM/cost; ONE omega object evaluated on a sequence of matching / non-matching grids of the same length. Non-trivial = mismatch families and straddling perturbations; distinct = distinct case")
 EXTRA_TRUSTED = ["np.allclose modelled from NumPy's documentation (|a-b| <= 1e-8 + 1e-5|b|, a NaN is never close)",
                  "np.loadtxt is outside the model: the harness writes the file with repr() floats and passes the same numbers to the model"]
@@ -35,7 +35,8 @@ def expected(value, ks, kd):
 def suite_array(ctx, case):
     kd = np.array(case['kd'], dtype=float)
     val = case['value']; ks = case['k']
-    caller = np.array(val, dtype=float)
+    vdt = np.float32 if case.get('f32') else float          # a table read from a single-precision file / trajectory analysis
+    caller = np.array(val, dtype=vdt)
     kc = case.get('kcont', 'array')
     kobj = None if ks is None else (tuple(float(x) for x in ks) if kc == 'tuple' else [float(x) for x in ks] if kc == 'list' else np.array(ks, dtype=float))
     o = pyPRISM.omega.FromArray(caller, kobj)
@@ -61,13 +62,14 @@ def suite_array(ctx, case):
         sy = pyPRISM.System(['A'], kT=1.0); sy.domain = pyPRISM.Domain(length=L, dr=dr) if not case.get('dom_dk') else pyPRISM.Domain(length=L, dk=case['dom_dk'])
         sy.density['A'] = 0.37; sy.diameter['A'] = 1.0
         sy.potential['A', 'A'] = pyPRISM.potential.HardSphere(); sy.closure['A', 'A'] = pyPRISM.closure.PercusYevick()
-        sy.omega['A', 'A'] = pyPRISM.omega.FromArray(np.array(val, dtype=float), None if ks is None else np.array(ks, dtype=float))
+        sy.omega['A', 'A'] = pyPRISM.omega.FromArray(np.array(val, dtype=vdt), None if ks is None else np.array(ks, dtype=float))
         if bool(np.allclose(sy.domain.k, kd, rtol=0, atol=0)):
             oks = True; whys = ''
             for rep in range(3):
                 try:
                     pp = sy.createPRISM()
                     if not np.array_equal(pp.omega.data[:, 0, 0], np.array(val, dtype=float) * 0.37): oks = False; whys = 'PRISM object #%d: omega is not table * rho_site' % rep
+                    if pp.omega.data.dtype != np.float64: oks = False; whys = 'PRISM object #%d: omega has dtype %s (the table times the density in single precision is not the table)' % (rep, pp.omega.data.dtype)
                     if outcome(lambda: sy.omega['A', 'A'].calculate(kd)) != want: oks = False; whys = 'after createPRISM #%d the System\'s table is no longer returned verbatim' % rep
                 except Exception as e:
                     oks = False; whys = 'createPRISM #%d raised %s' % (rep, type(e).__name__)
@@ -206,6 +208,7 @@ def relate(rng, kd, rel):
     if rel == 'rescaled': return [x * (1 + rng.choice([-1, 1]) * 10 ** rng.uniform(-6, -1)) for x in k]
     if rel == 'truncated': return k[:max(0, L - rng.randint(1, min(3, L)))]
     if rel == 'extended': return k + [k[-1] + (i + 1) * (k[0] if L else 1.0) for i in range(rng.randint(1, 3))]
+    if rel == 'prepend0': return [0.0] + k          # a table that starts at k = 0 (one point more than the grid, which starts at dk)
     if rel == 'nan':
         k[rng.randrange(L)] = float('nan'); return k
     if rel == 'perturbed':
@@ -233,13 +236,16 @@ def generate(ctx):
         ctx.case('history', case, True, tags=['history:' + case['kind'], 'evals:%d' % len(grids)]); suite_history(ctx, case)
     for _ in range(ctx.n(600, 8000)):
         L, dr, kd = gen_domain(rng, maxL)
-        rel = rng.choice(['equal', 'equal', 'shifted', 'rescaled', 'truncated', 'extended', 'perturbed', 'perturbed', 'nan'])
+        rel = rng.choice(['equal', 'equal', 'shifted', 'rescaled', 'truncated', 'extended', 'perturbed', 'perturbed', 'nan', 'prepend0'])
         kind = rng.choice(['array', 'array-nok', 'file2', 'file1'])
         if kind in ('array', 'array-nok'):
             ks = relate(rng, kd, rel) if kind == 'array' else None
             nval = len(ks) if ks is not None else (L if rel in ('equal', 'shifted', 'rescaled', 'perturbed') else len(relate(rng, kd, rel)))
             if rng.random() < 0.1: nval = max(1, nval + rng.choice([-1, 1]))
+            if rel == 'prepend0' and ks is not None and rng.random() < 0.4: nval = L          # only the k column is one point too long
             case = {'kd': kd, 'k': ks, 'value': [round(rng.choice([rng.uniform(0, 30), rng.uniform(-0.5, 0.5), rng.uniform(-30, 30), 0.0, 10 ** rng.uniform(-12, -6)]), 12) for _ in range(nval)], 'rel': rel, 'kcont': rng.choice(['array', 'array', 'list', 'tuple']), 'dom': [L, dr]}
+            if rng.random() < 0.15:
+                case['f32'] = True; case['value'] = [float(np.float32(v)) for v in case['value']]
             ctx.case('array', case, rel != 'equal', tags=['kind:' + kind, 'rel:' + rel, 'L<=%d' % (8 * ((L + 7) // 8))])
             suite_array(ctx, case)
         else:
